@@ -17,7 +17,7 @@ KEYWORDS = {
 NUMFUNCS = {"ABS", "ATN", "COS", "EXP", "FIX", "INT", "LOG", "SGN", "SIN", "SQR", "TAN", "RND", "PEEK", "LEN", "ASC", "VAL", "INSTR", "JOYSTK", "BUTTON", "POINT", "VARPTR", "ERNO"}
 STRFUNCS = {"CHR$", "LEFT$", "RIGHT$", "MID$", "STR$", "HEX$", "STRING$", "INKEY$"}
 
-TOK = re.compile(r'\s*(?:(?P<str>"[^"]*"?)|(?P<hex>&\s*H\s*[0-9A-F]*)|(?P<num>(?:\d+\.?\d*|\.\d+)(?:\s*E\s*[+-]?\s*\d*)?)|(?P<id>[A-Z][A-Z0-9]*\$?)|(?P<op><=|>=|<>|><|=<|=>|[-+*/^=<>(),;:@?\'#]))')
+TOK = re.compile(r'\s*(?:(?P<str>"[^"]*"?)|(?P<hex>&\s*H\s*[0-9A-F]*)|(?P<num>(?:\d+\.?\d*|\.\d+)(?:\s*E(?!LSE)\s*[+-]?\s*\d*)?)|(?P<id>[A-Z][A-Z0-9]*\$?)|(?P<op><=|>=|<>|><|=<|=>|[-+*/^=<>(),;:@?\'#]))')
 
 
 class DecbError(Exception):
